@@ -32,17 +32,17 @@ const (
 )
 
 type c16World struct {
-	tp       *tp.TP
-	key      macaroon.SigningKey
-	ka       macaroon.EncryptionKey
-	roots    []*macaroon.Macaroon
-	tickets  [][]byte
-	foreign  []byte
-	pollSec  []string // per created flow
-	userSec  []string
-	appRan   bool
-	appOK    bool
-	lastCtx  context.Context // context of the latest request that reached the application (carries that request's flow data)
+	tp      *tp.TP
+	key     macaroon.SigningKey
+	ka      macaroon.EncryptionKey
+	roots   []*macaroon.Macaroon
+	tickets [][]byte
+	foreign []byte
+	pollSec []string // per created flow
+	userSec []string
+	appRan  bool
+	appOK   bool
+	lastCtx context.Context // context of the latest request that reached the application (carries that request's flow data)
 }
 
 func cavList(ids []uint64) []macaroon.Caveat {
@@ -427,27 +427,56 @@ func genC16(c *ctx) {
 			return k, f
 		}
 		steps := 3 + r.Intn(10)
+		// scripted opening for one history in five: two background flows pending at once, both decided before either is
+		// collected, then both collected (stored answers must not interfere); the random steps follow
+		var script []c16Act
+		if r.P(1, 5) {
+			m1, m2 := rng.Pick(r, []string{"MPoll", "MUser"}), rng.Pick(r, []string{"MPoll", "MUser"})
+			decide := func(f uint64, mode string) c16Act {
+				kinds := []string{"AApprovePoll", "AAbortPoll"}
+				sk := "SPoll"
+				if mode == "MUser" && r.Bool() {
+					kinds, sk = []string{"AApproveUser", "AAbortUser"}, "SUser"
+				}
+				return c16Act{Kind: rng.Pick(r, kinds), Cavs: randCavs(), Msg: uint64(r.Intn(5)), S: sk, F: f, InCtx: r.Bool()}
+			}
+			script = []c16Act{
+				{Kind: "AInit", T: "TValid", TI: 0, Mode: m1},
+				{Kind: "AInit", T: "TValid", TI: 1, Mode: m2},
+				decide(0, m1), decide(1, m2),
+				{Kind: "APoll", S: "SPoll", F: 0}, {Kind: "APoll", S: "SPoll", F: 1},
+				{Kind: "APoll", S: "SPoll", F: 0},
+			}
+			if r.Bool() {
+				script[4], script[5] = script[5], script[4]
+			}
+			steps += len(script)
+		}
 		for k := 0; k < steps; k++ {
 			var a c16Act
-			switch x := r.Intn(12); {
-			case x < 3:
-				a = c16Act{Kind: "AInit", T: "TValid", TI: uint64(r.Intn(3)), Mode: rng.Pick(r, []string{"MPoll", "MUser", "MPoll", "MUser", "MImmediate", "MError"})}
-				if r.P(1, 5) {
-					a.T = rng.Pick(r, []string{"TTampered", "TForeign", "TEmpty"})
+			if k < len(script) {
+				a = script[k]
+			} else {
+				switch x := r.Intn(12); {
+				case x < 3:
+					a = c16Act{Kind: "AInit", T: "TValid", TI: uint64(r.Intn(3)), Mode: rng.Pick(r, []string{"MPoll", "MUser", "MPoll", "MUser", "MImmediate", "MError"})}
+					if r.P(1, 5) {
+						a.T = rng.Pick(r, []string{"TTampered", "TForeign", "TEmpty"})
+					}
+					a.Cavs, a.Status, a.Msg = randCavs(), rng.Pick(r, []uint64{400, 403, 500}), uint64(r.Intn(5))
+				case x < 6:
+					a = c16Act{Kind: "APoll"}
+					a.S, a.F = sref("SPoll")
+				case x < 8:
+					a = c16Act{Kind: "AUserVisit", Dec: rng.Pick(r, []string{"DApprove", "DAbort", "DNone"}), Cavs: randCavs(), Msg: uint64(r.Intn(5))}
+					a.S, a.F = sref("SUser")
+				case x < 10:
+					a = c16Act{Kind: rng.Pick(r, []string{"AApprovePoll", "AAbortPoll"}), Cavs: randCavs(), Msg: uint64(r.Intn(5)), InCtx: r.Bool()}
+					a.S, a.F = sref("SPoll")
+				default:
+					a = c16Act{Kind: rng.Pick(r, []string{"AApproveUser", "AAbortUser"}), Cavs: randCavs(), Msg: uint64(r.Intn(5)), InCtx: r.Bool()}
+					a.S, a.F = sref("SUser")
 				}
-				a.Cavs, a.Status, a.Msg = randCavs(), rng.Pick(r, []uint64{400, 403, 500}), uint64(r.Intn(5))
-			case x < 6:
-				a = c16Act{Kind: "APoll"}
-				a.S, a.F = sref("SPoll")
-			case x < 8:
-				a = c16Act{Kind: "AUserVisit", Dec: rng.Pick(r, []string{"DApprove", "DAbort", "DNone"}), Cavs: randCavs(), Msg: uint64(r.Intn(5))}
-				a.S, a.F = sref("SUser")
-			case x < 10:
-				a = c16Act{Kind: rng.Pick(r, []string{"AApprovePoll", "AAbortPoll"}), Cavs: randCavs(), Msg: uint64(r.Intn(5)), InCtx: r.Bool()}
-				a.S, a.F = sref("SPoll")
-			default:
-				a = c16Act{Kind: rng.Pick(r, []string{"AApproveUser", "AAbortUser"}), Cavs: randCavs(), Msg: uint64(r.Intn(5)), InCtx: r.Bool()}
-				a.S, a.F = sref("SUser")
 			}
 			ob := w.do(a, r)
 			acts = append(acts, a)
